@@ -170,3 +170,28 @@ def apsensing_files(outdir, n, nx, stamps_utc):
         names.append(name)
         open(os.path.join(outdir, name), "w", encoding="utf-8-sig").write(h + "<logData>\n" + rows + "              </logData>" + tail)
     return names
+
+
+def apsensing_tra_set(outdir, sensors):
+    """the bundled AP Sensing set with .tra companions (tests/data/ap_sensing_2/CH1_SE), keeping only the PT100 lines of `sensors`, each with a value that names sensor and file"""
+    src = f"{D}/ap_sensing_2/CH1_SE"
+    os.makedirs(outdir, exist_ok=True)
+    want = {}
+    tras = sorted(n for n in os.listdir(src) if n.endswith(".tra"))
+    for n in sorted(os.listdir(src)):
+        if n.endswith(".xml"):
+            open(os.path.join(outdir, n), "wb").write(open(os.path.join(src, n), "rb").read())
+    for f, n in enumerate(tras):
+        lines = []
+        for line in open(os.path.join(src, n)).read().split("\n"):
+            m = re.match(r"Ref\.Temperature\.Sensor\.(\d+);", line)
+            if m:
+                k = int(m.group(1))
+                if k not in sensors:
+                    continue
+                v = 100.0 * k + f + 0.25
+                want.setdefault(k, []).append(v)
+                line = f"Ref.Temperature.Sensor.{k};{v}"
+            lines.append(line)
+        open(os.path.join(outdir, n), "w").write("\n".join(lines))
+    return want
